@@ -253,6 +253,62 @@ def gen_cases(tier, rng, db, idx):
     opts = base_opts(rng, f, o["mixins"], 0)
     opts["key_store"] = ""
     add("empty key store file", f, o, 200, opts=opts, variant=0)
+    # I: histories -- a second export of the same object; a change through the public attributes, then export
+    hreps = [pick("crc")[0], v1[0], v1[1], v1[2]] + [v21[0], v21[-1]]
+    for k in ("signed-vx", "crc-bca"):
+        if pick(k):
+            hreps.append(pick(k)[0])
+    pair = [0]
+
+    def hist(f, o, n, opts, cert, history, new_case_update, variant):
+        """case A (with the history) and, for a change, case B: a FRESH object configured with the new settings"""
+        pair[0] += 1
+        add("second export / change then export", f, o, n, opts=json.loads(json.dumps(opts)), cert=cert, variant=variant,
+            history=history, pair=pair[0], role="A")
+        a_case = out[-1][1]
+        if new_case_update:
+            b = json.loads(json.dumps({k: v for k, v in a_case.items() if k not in ("history", "role")}))
+            new_case_update(b)
+            b["role"] = "B"
+            out.append(("second export / change then export", b, f, o))
+    for i, (f, o) in enumerate(hreps):
+        ms = o["mixins"]
+        sm = set(short(ms))
+        kind = kind_of(ms, o["image_type"])
+        opts = base_opts(rng, f, ms, 2 * i)             # even variant: no custom TZ, no key store, no digest
+        cert = default_cert(idx, rng, f, ms, 0)
+        hist(f, o, 200, opts, cert, [["export"]], None, 0)
+        if "MixinBcaTable" in sm:
+            continue
+        new_app = gen_app(rng, 252)
+
+        def upd_app(b, new_app=new_app):
+            b["app"] = new_app.hex()
+        hist(f, o, 200, opts, cert, [["set_app", new_app.hex()]], upd_app, 0)
+        if "MixinKeyStore" in sm:
+            ks = rnd(rng, 1424).hex()
+
+            def upd_ks(b, ks=ks):
+                b["opts"]["key_store"] = ks
+            hist(f, o, 200, opts, cert, [["set_key_store", ks]], upd_ks, 0)
+        if cert and cert["kind"] == "v1":
+            c2 = c02_keys.rsa_case(idx, 3072, 3, 1, 2)
+
+            def upd_c(b, c2=c2):
+                b["cert"] = c2
+            hist(f, o, 200, opts, cert, [["set_cert", c2]], upd_c, 0)
+        if cert and cert["kind"] == "v21":
+            c2 = c02_keys.ecc_case(idx, "p384", 2, 1, None)
+
+            def upd_c21(b, c2=c2):
+                b["cert"] = c2
+            hist(f, o, 200, opts, cert, [["set_cert", c2]], upd_c21, 0)
+        if f["tz_size"] and sm & {"MixinTrustZone", "MixinTrustZoneMandatory", "MixinManifestCrc", "MixinManifestDigest"}:
+            tzd = rnd(rng, f["tz_size"]).hex()
+
+            def upd_tz(b, tzd=tzd):
+                b["opts"]["tz"] = ["custom", tzd]
+            hist(f, o, 200, opts, cert, [["set_tz_custom", tzd]], upd_tz, 0)
     # H: the command line
     for (f, o) in [pick("crc")[0], v1[0], v21[0]]:
         add("nxpimage mbi export", f, o, 160, variant=1, cli=True)
@@ -531,6 +587,85 @@ def oracle(case, res, fam, offer):
     return fails, r
 
 
+def det_view(kind, img, r):
+    """the image with the regions that legitimately carry fresh randomness (ECDSA signatures and what depends on them) blanked"""
+    b = bytearray(img)
+
+    def blank(a, e):
+        b[a:e] = bytes(max(0, min(e, len(b)) - a))
+    if kind in ("signed-v21", "signed-vx"):
+        for name in ("signature", "digest"):
+            if name in r["regions"]:
+                blank(*r["regions"][name])
+    if kind == "signed-v21":
+        off = int.from_bytes(img[0x28:0x2C], "little")
+        size = int.from_bytes(img[off + 8:off + 12], "little")
+        flags = int.from_bytes(img[off + 12:off + 16], "little")
+        if not flags >> 31:                               # ISK certificate: its ECDSA signature closes the block
+            hl = 32 if flags & 0xF == 1 else 48
+            blank(off + size - 2 * hl, off + size)
+    if kind == "signed-vx":
+        blank(0x410 + 72, 0x410 + 136)
+        blank(0x4A0, 0x4B0)
+    return bytes(b)
+
+
+def history_checks(rep, gen, results):
+    """oracles over operation histories on ONE object: export twice; change a member, export"""
+    fresh = {}
+    for (stream, case, fam, offer) in gen:
+        if case.get("role") == "B":
+            fresh[case["pair"]] = (case, results[id(case)])
+    n = 0
+    for (stream, case, fam, offer) in gen:
+        if case.get("role") != "A":
+            continue
+        res = results[id(case)]
+        if res.get("export") != "ok" or "image2" not in res:
+            continue
+        n += 1
+        ops = case["history"]
+        what = ops[0][0]
+        kind = kind_of(res["mixins"], res["image_type"])
+        replay = {"kind": "history", "case": case, "operations": ["load_from_config", "export"] + [o[0] for o in ops] +
+                  (["export"] if what != "export" else []), "first_image": res["image"],
+                  "second_image": res["image2"] if isinstance(res["image2"], str) else None}
+        if not isinstance(res["image2"], str):
+            if what == "export" or res["image2"][1] != 1:
+                rep.failing(f"history:second-export-differs:{kind}:second-export-fails",
+                            f"{case['family']} {case['target']}/{case['auth']}: the second export on the same object ends with {res['image2'][2]}", replay)
+            continue                                      # a refused export after a change exports nothing
+        img1, img2 = bytes.fromhex(res["image"]), bytes.fromhex(res["image2"])
+        if what == "export":
+            case2 = case
+        else:
+            case2, resb = fresh.get(case["pair"], (None, None))
+            if case2 is None:
+                continue
+        res2 = dict(res)
+        res2.update({"image": res["image2"], "signed": res["signed2"], "rkth": res["rkth2"], "input": res["input2"],
+                     "app_len": res["app_len2"]})
+        fails, r2 = oracle(case2, res2, fam, offer)
+        tag = "second-export-differs" if what == "export" else "stale-after-change"
+        for sig, msg in fails:
+            rep.failing(f"history:{tag}:{what}:{sig}", f"after [{', '.join(replay['operations'])}] the exported image violates C02: " + msg, replay)
+        if r2 is None:
+            continue
+        if what == "export":
+            ok1, r1 = rom.accept(rom_cfg(fam, res["mixins"], res["image_type"], case), rom_keys(case, res), img1)
+            if ok1 and det_view(kind, img1, r1) != det_view(kind, img2, r2):
+                rep.failing(f"history:second-export-differs:{kind}", f"{case['family']} {case['target']}/{case['auth']}: a second export() "
+                            "of the same object differs from the first outside the ECDSA signature regions", replay)
+        elif resb.get("export") == "ok":
+            imgb = bytes.fromhex(resb["image"])
+            okb, rb = rom.accept(rom_cfg(fam, resb["mixins"], resb["image_type"], case2), rom_keys(case2, resb), imgb)
+            if okb and det_view(kind, imgb, rb) != det_view(kind, img2, r2):
+                replay["fresh_image"] = resb["image"]
+                rep.failing(f"history:stale-after-change:{what}:{kind}", f"{case['family']} {case['target']}/{case['auth']}: export after "
+                            f"{what} differs from the export of a fresh object configured with the new settings", replay)
+    return n
+
+
 def tamper_positions(rng, img, r, kind, every):
     """one byte per region (or every byte): -> list of (position, region name)"""
     n = len(img)
@@ -613,10 +748,16 @@ def run(tier):
     if thorough:
         vlib.coqchk(rep, PID, THEOREMS)
     vlib.audit(rep)
-    # key material + database
-    idx = c02_keys.ensure(KEYS, vlib.log)
-    db = vlib.run_impl("c02_impl.py", {"mode": "dump"})
-    gen = gen_cases(tier, rng, db, idx)
+    # key material + database (failures here are failures of the harness, not of the property)
+    try:
+        idx = c02_keys.ensure(KEYS, vlib.log)
+        db = vlib.run_impl("c02_impl.py", {"mode": "dump"})
+        gen = gen_cases(tier, rng, db, idx)
+        rep.obligation("harness:key fixtures (tools/props/c02.keys.json), database dump, case generation", True)
+    except Exception as ex:  # noqa
+        rep.obligation("harness:key fixtures (tools/props/c02.keys.json), database dump, case generation", False, repr(ex)[-1500:])
+        clean_work()
+        return rep.finish(rule="harness failure before any case was evaluated", trusted_base=[], checker_cmd="", assumptions=[])
     # (T2) implementation
     t0 = time.time()
     chunks = [gen[i::8] for i in range(8)]
@@ -668,6 +809,7 @@ def run(tier):
             accepted.append((stream, case, fam, offer, res, r, kind))
         else:
             rejected.append((case, res))
+    nhist = history_checks(rep, gen, results)
     # tamper: single-bit corruptions must be rejected by ROM + oracle
     t0 = time.time()
     ntamper, tamper_samples, tamper_model = 0, [], []
@@ -769,6 +911,7 @@ def run(tier):
     for name, st in streams.items():
         rep.add_stream(name, st["n"], len(st["exported"]), samples=st["samples"], extra={"kinds": st["kinds"]})
     rep.add_stream("single-bit corruptions", ntamper, ntamper, samples=tamper_samples)
+    rep.add_stream("histories checked (second export / change then export)", nhist, nhist)
     if not dev and model_ok:
         refuted_theorems(rep)
     clean_work()
